@@ -257,6 +257,12 @@ func normalizeForRoundTrip(v reflect.Value, noNull, nullNaN bool, d int) {
 				v.Set(reflect.Zero(v.Type()))
 				return
 			}
+			// a pointer to a nil slice / map is written as null (without NoNullSliceOrMap),
+			// which decodes as a nil pointer - in encoding/json as well
+			if e := v.Elem(); !noNull && v.CanSet() && (e.Kind() == reflect.Slice || e.Kind() == reflect.Map) && e.IsNil() {
+				v.Set(reflect.Zero(v.Type()))
+				return
+			}
 			normalizeForRoundTrip(v.Elem(), noNull, nullNaN, d+1)
 		}
 	case reflect.Slice:
